@@ -5,7 +5,7 @@ RULE = ("part ctl_mutex: controlled schedules (real threads, one runnable at a t
         "each, acquisition by co_await lock() / lock().wait() / try_lock(), release by ownership destruction / release() discarded / "
         "co_await release(); random, bursty, highest-first and sparse-preemption schedules, a malformed-declaration stream, and directed schedules (all interleavings of a release with a request in flight, try_lock racing unlock, two late arrivals between an owner's publishing CAS and its build_queue with 4 contenders, 4 parties on 3 threads with a thread still in await_suspend, retry windows (other contenders complete whole operations between two adjacent atomic operations of a requester), the same schedule under every release flavour and every blocking/coroutine mix); thorough adds "
         "every schedule prefix of length 13 (2 contenders x 2 rounds) / 9 (3 x 1) and all pairs of single-step preemptions; "
-        "non-trivial = at least 3 OS-thread switches in the executed trace; distinct = distinct (contenders, schedule); part seq_own: sequential op sequences (4-24 ops) over two mutexes and four ownership slots: try_lock into a slot, callback-style requests (await_suspend(resume_fn)) whose grant is stored into a slot - also the slot being released / overwritten -, release (twice), destruction, move assignment onto holding / empty / the same slot, move construction, bool, probing try_lock; non-trivial = at least 5 ops of at least 3 kinds")
+        "non-trivial = at least 3 OS-thread switches in the executed trace; distinct = distinct (contenders, schedule); part seq_own: sequential op sequences (4-24 ops) over two mutexes and four ownership slots: try_lock into a slot, callback-style requests (await_suspend(resume_fn)) whose grant is stored into a slot - also the slot being released / overwritten -, release (twice), destruction, move assignment onto holding / empty / the same slot, move construction, bool, probing try_lock; non-trivial = at least 5 ops of at least 3 kinds; part seq_bare: 1-5 coroutines that run WITHOUT a coro_queue (started and continued by handle.resume()), each lock / wait at a gate / release (destruction, release() discarded, co_await release()), gates opened in and out of order; non-trivial = at least two coroutines and one gate opened")
 SCOPE = ("mutex::ready/subscribe/build_queue/unlock/try_lock/lock, mutex::ownership (deleter, release), co_awaiter<mutex> "
          "await_ready/await_suspend/await_resume/sync/wait, sync_awaiter, coro_queue resume/flush_queue/install_queue_and_call, "
          "suspend_point<void> destructor and await_suspend as used by the mutex")
@@ -17,4 +17,5 @@ def gen_own(seed, tier): return mutexcommon.gen_own(seed, tier, "mutex")
 nontrivial = mutexcommon.nontrivial_any
 signature = mutexcommon.signature
 PARTS = [{"name": "ctl_mutex", "harness": "ctl_mutex.cpp", "gen": gen, "no_shrink": True, "timeout_case": 5},
-         {"name": "seq_own", "harness": "seq_mutex_own.cpp", "gen": gen_own, "no_shrink": False, "timeout_case": 5}]
+         {"name": "seq_own", "harness": "seq_mutex_own.cpp", "gen": gen_own, "no_shrink": False, "timeout_case": 5},
+         {"name": "seq_bare", "harness": "seq_mutex_bare.cpp", "gen": mutexcommon.gen_bare, "no_shrink": False, "timeout_case": 5}]
